@@ -934,6 +934,10 @@ class Extractor:
                     edits.append(Edit(body_src_hi, body_src_hi, block, ('inj', 'proof', p.src, 'proof')))
                 else:
                     pos = self.find_anchor(src, toks, lo, hi, p.anchor, p.nth)
+                    if pos is not None and os.environ.get('VP_ANCHOR_SUGGEST'):
+                        m_ = self.minimize_anchor(src, toks, lo, hi, p.anchor, p.nth)
+                        if m_ and m_ != re.sub(r'\s+', ' ', p.anchor).strip():
+                            self.report.setdefault('anchor_suggestions', []).append({'src': p.src, 'old': p.anchor, 'new': m_, 'fn': path})
                     if pos is None:
                         self.report['unanchored'].append({'what': '%s proof %s "%s"' % (path, p.where, p.anchor), 'src': p.src})
                         continue
@@ -1107,6 +1111,35 @@ class Extractor:
             if re.search(r'(\.write_[a-z0-9_]*|\.write|write_zeros|write_box_header_ext|\.write_box|\.write_desc|\bwrite_desc)\s*(::<\w+>)?\s*\(', text):
                 res.append(end)
         return sorted(set(res))
+
+    def minimize_anchor(self, src, toks, lo, hi, anchor: str, nth: int):
+        """Shortest prefix of the anchor (cut at a token boundary) that still selects the same statement with the same ordinal."""
+        norm = lambda s: re.sub(r'\s+', ' ', s).strip()
+        a = norm(anchor)
+        starts = [lo]
+        for j in range(lo, hi):
+            if toks[j].text in ('{', ';', '}'):
+                starts.append(j + 1)
+        texts = []
+        for s_ in starts:
+            if s_ >= hi:
+                continue
+            e_ = min(hi, s_ + 40)
+            texts.append(norm(src[toks[s_].start:toks[e_ - 1].end]))
+        full = [i for i, t in enumerate(texts) if t.startswith(a)]
+        if len(full) < nth:
+            return None
+        target = full[nth - 1]
+        for L in range(6, len(a)):
+            if (a[L - 1].isalnum() or a[L - 1] == '_') and (a[L].isalnum() or a[L] == '_'):
+                continue
+            pre = a[:L].rstrip()
+            if len(pre) < 12:
+                continue
+            hit = [i for i, t in enumerate(texts) if t.startswith(pre)]
+            if hit == full:
+                return pre
+        return a
 
     def find_anchor(self, src, toks, lo, hi, anchor: str, nth: int):
         """Locate the nth statement whose whitespace-normalised text starts with / contains the anchor.
